@@ -26,6 +26,8 @@ def run(rep):
     R.chunk_placement(rep)
     R.ghost_and_axes(rep)
     R.restart_selection(rep)
+    R.iteration_labels(rep)
+    R.cache_fill_provenance(rep)
     R.name_maps(rep)
     R.definite_assignment(rep, ["reading.py"], only=R.SCOPE["C11"])
     rep.floor("chunk-order", 3)
